@@ -280,3 +280,20 @@ Proof.
   - apply differ_one_bit_length. exact Hd.
   - intros E. symmetry in E. revert E. apply crc32_single_bit_detected; assumption.
 Qed.
+
+(* ---- configuration: only real (mutual) TLS switches the payload checksum off ---- *)
+Lemma transport_encrypted_iff_proved c : transport_encrypted c = c_mutual_tls c.
+Proof. unfold transport_encrypted. change encrypted_is_mutual_tls with true.
+  change frame_calls_pass_encrypted with true. reflexivity. Qed.
+
+Lemma frame_cfg_payload_bit_flip_rejected_proved c hb p p' rest h :
+  c_mutual_tls c = false ->
+  read_frame_cfg c (magic ++ hb ++ p ++ rest) = Delivered h p rest ->
+  length hb = hdr_len -> wf_bytes p -> differ_one_bit p p' ->
+  read_frame_cfg c (magic ++ hb ++ p' ++ rest) = Bad.
+Proof.
+  intros Hc. unfold read_frame_cfg, transport_encrypted.
+  change encrypted_is_mutual_tls with true. change frame_calls_pass_encrypted with true.
+  cbn [andb]. rewrite Hc.
+  apply frame_payload_bit_flip_rejected_proved.
+Qed.
